@@ -369,7 +369,7 @@ def run(rep, tier, seed, replay=None):
     rep.cov['input_distribution'] = hist
     rep.cov['shapes_distinct'] = len(shapes)
     rep.cov['samples'] = [{'case': c, 'impl': a} for c, a in list(zip(cases, impl))[:2] + list(zip(cases, impl))[-2:]]
-    rep.cov['samples'].append({'theorem': 'C07_exhausted : finite inputs, hyp = clamp(basis), factors 0 or >= 1 in the direction taken -> '
+    rep.cov['samples'].append({'theorem': 'C07_exhausted_partial : finite inputs, hyp = clamp(basis), factors 0 or >= 1 in the direction taken -> '
                                           'resolve_flexible_lengths = Some res, all frozen, and (gaps + sum outer targets == M \\/ '
                                           'growing /\\ every g<>0 item at effmax \\/ shrinking /\\ every s<>0, inner basis<>0 item at effmin)'})
     rep.cov['samples'].append({'theorem': 'C07_order_no_overlap : gap >= 0, margins >= 0 non-auto, inset = 0, sizes >= 0 -> for i < j: '
@@ -478,6 +478,18 @@ def run(rep, tier, seed, replay=None):
         rep.known.append('F-C07-autogap reproduced: second item at %s, not 80 | %s' % (m.group(1), FINDINGS[1]['line']))
     else:
         rep.cov['stale_finding_autogap'] = 'witness of C07_gap_dropped_with_auto_margins_refuted no longer reproduces: %s' % out[-200:]
+    # the witness of C07_inset_refuted (a relative inset shifts an item over its neighbour): replayed, recorded, not a violation -- the
+    # oracle's generator produces no relative insets, the model says x = 30 (20 wide) and x = 20
+    mi = re.search(r'inset a\.x=([0-9.eE+-]+) a\.w=([0-9.eE+-]+) b\.x=([0-9.eE+-]+)', out)
+    if not mi:
+        rep.add_broken('search', 'vh c07 probe (inset witness)', out[-300:])
+    else:
+        got = [float(mi.group(i)) for i in (1, 2, 3)]
+        rep.cov['inset_witness'] = {'theorem': 'C07_inset_refuted', 'model': [30.0, 20.0, 20.0], 'implementation': got,
+                                    'overlap_on_implementation': got[0] + got[1] > got[2] and got[0] < got[2] + 20.0}
+        if got != [30.0, 20.0, 20.0]:
+            rep.add_broken('correspondence', 'inset witness of C07_inset_refuted: model vs implementation',
+                           'model: first item at 30 (20 wide), second at 20; implementation: %r' % got)
     # ---------------------------------------------------------------- search: the two laws directly on the implementation
     ntrees = 200000
     if tier == 'thorough':
